@@ -230,11 +230,10 @@ def run_cli_inproc(files, fs, charset, fmt, extra_argv, watchdog):
     m["metacommands"].open = fake.open
     mcli.open_device = sink_open
     m["compiler"].open_device = sink_open
-    out, err = io.StringIO(), io.StringIO()
-
-    class _Out(io.StringIO):
-        buffer = io.BytesIO()
-    out = _Out()
+    # like the real streams of the command line: UTF-8, strict (a lone surrogate in a message cannot be printed)
+    out_b, err_b = io.BytesIO(), io.BytesIO()
+    out = io.TextIOWrapper(out_b, encoding="utf-8", errors="strict", write_through=True)
+    err = io.TextIOWrapper(err_b, encoding="utf-8", errors="strict", write_through=True)
     sys.argv = ["pdpy11", f"--report-format={fmt}", f"--charset={charset}"] + list(extra_argv) + [fn for fn, _ in files]
     sys.stdout, sys.stderr = out, err
     res = {"exit": None, "fmt": fmt, "argv": sys.argv[1:]}
@@ -264,8 +263,8 @@ def run_cli_inproc(files, fs, charset, fmt, extra_argv, watchdog):
                 setattr(mod, key, val)
         mcli.open_device = saved[2]
         m["compiler"].open_device = saved[3]
-    res["out"] = out.getvalue()
-    res["err"] = err.getvalue()
+    res["out"] = out_b.getvalue().decode("utf-8", "replace")
+    res["err"] = err_b.getvalue().decode("utf-8", "replace")
     if time.time() - t_start >= watchdog * 0.97 and not res.get("hang"):
         # the watchdog fired but a secondary exception (or the catch-all of main_cli) swallowed it
         res["hang"] = impl.innermost_pdpy11_frame(res["err"]) if BANNER in res["err"] else "?"
@@ -332,6 +331,12 @@ def judge(case, watchdog=None, cli=True):
         # program-level counterpart of C08_cycle_reported_only_for_cycles: the input has no definition cycle by construction
         V.append({"signature": "spurious-cycle-report", "what": "a 'recursive-definition' error was reported for a program that has no definition cycle",
                   "detail": {"diags": [d[:2] for d in r["diags"]][:6]}})
+    exp = case.get("expect")
+    if exp and r["outcome"] in ("ok", "failed"):
+        # inputs whose outcome is known by construction (corpus entries, rings that must be rejected, alias chains that must assemble)
+        if r["outcome"] != exp.get("outcome") or (exp.get("diag") and exp["diag"] not in res["diag_ids"]):
+            V.append({"signature": "unexpected-outcome", "what": f"an input whose outcome is known by construction ({exp}) ended differently",
+                      "detail": {"outcome": r["outcome"], "diags": [d[:2] for d in r["diags"]][:6]}})
     if r["outcome"] not in ("ok", "failed"):
         V.append({"signature": "harness:" + str(r["outcome"]), "what": "unexpected outcome class from impl.assemble", "detail": r})
         return res
@@ -400,7 +405,7 @@ def jsonable(case):
         else:
             fs[k] = v
     out = {"files": [list(x) for x in case["files"]], "fs": fs, "charset": case.get("charset", "bk")}
-    for k in ("argv", "n", "stream", "tags", "acyclic"):
+    for k in ("argv", "n", "stream", "tags", "acyclic", "expect"):
         if case.get(k) is not None:
             out[k] = case[k]
     return out
@@ -429,7 +434,7 @@ def minimise(case, signature, watchdog=None, max_trials=400):
         c["fs"] = fs
         return signature in signatures(c, wd)
 
-    if signature == "<keep>" or not pred(case["files"], case["fs"]):
+    if signature in ("<keep>", "unexpected-outcome") or not pred(case["files"], case["fs"]):
         return jsonable(case), 0
     # drop whole files / fs entries first
     files = [tuple(f) for f in case["files"]]
